@@ -659,7 +659,7 @@ def check_types(ir):
         ir,
         [ir_data.ArrayType, ir_data.Expression],
         _type_check_array_size,
-        skip_descendants_of={ir_data.AtomicType},
+        skip_descendants_of={ir_data.AtomicType, ir_data.Expression},
         parameters={"errors": errors},
     )
     traverse_ir.fast_traverse_ir_top_down(
